@@ -8,6 +8,7 @@ from .engine import (OutOfSubset, PathEnd, PyExc, ReturnSig, BreakSig, ContinueS
 from .source import Contract
 from .ops import lift, liftable, is_val
 
+CONTAINER_IDS = (1, 2, 3, 4)
 LIST_METHODS = {'append', 'extend', 'insert', 'pop', 'popleft', 'index', 'sort', 'copy', 'reverse', 'appendleft'}
 DICT_METHODS = {'get', 'setdefault', 'items', 'keys', 'values', 'pop', 'update', 'copy', 'clear'}
 SET_METHODS = {'add', 'discard', 'remove', 'update', 'pop', 'copy', 'clear'}
@@ -85,13 +86,13 @@ class ListIter(IterVal):
         self.ref = ref
 
     def _len(self, run):
-        return z3.Select(run.field('list.len'), Value.a(self.ref))
+        return run.lget(Value.a(self.ref), 'len')
 
     def has_next(self, run, k):
         return (z3.IntVal(k) if isinstance(k, int) else k) < self._len(run)
 
     def item(self, run, k):
-        v = z3.Select(z3.Select(run.field('list.items'), Value.a(self.ref)), k)
+        v = z3.Select(run.lget(Value.a(self.ref), 'items'), k)
         return z3.simplify(v)
 
     def in_range(self, run, k):
@@ -197,17 +198,21 @@ class CallsMixin:
 
     def new_list(self, items, cls='list'):
         a = self.new_addr(cls)
+        if self.alloc_region and cls == 'list':
+            self.region[z3.simplify(a).sexpr()] = self.alloc_region
         arr = z3.K(I, VNone)
         for i, it in enumerate(items):
             arr = z3.Store(arr, i, it)
-        self.heap['list.len'] = z3.Store(self.field('list.len'), a, len(items))
-        self.heap['list.items'] = z3.Store(self.field('list.items'), a, arr)
+        self.lset(a, 'len', z3.IntVal(len(items)))
+        self.lset(a, 'items', arr)
         return VRef(a)
 
     def new_list_sym(self, n, arr, cls='list'):
         a = self.new_addr(cls)
-        self.heap['list.len'] = z3.Store(self.field('list.len'), a, n)
-        self.heap['list.items'] = z3.Store(self.field('list.items'), a, arr)
+        if self.alloc_region and cls == 'list':
+            self.region[z3.simplify(a).sexpr()] = self.alloc_region
+        self.lset(a, 'len', n)
+        self.lset(a, 'items', arr)
         return VRef(a)
 
     def new_dict(self, cls='dict'):
@@ -217,11 +222,69 @@ class CallsMixin:
         self.heap['dict.val'] = z3.Store(self.field('dict.val'), a, z3.K(Value, VNone))
         return VRef(a)
 
+    def mod_pred(self, e):
+        """A `modifies` entry as a membership predicate on addresses: a single object expression, or
+        each(<expr> for v in <range/anyvalue> if <cond>) for a family of objects."""
+        if isinstance(e, ast.Call) and isinstance(e.func, ast.Name) and e.func.id == 'each':
+            ge = e.args[0]
+            g = ge.generators[0]
+            frame_env = dict(self.frames[-1].env)
+            heap, alloc = dict(self.heap), self.alloc
+            run = self
+
+            def pred(x, witness=None, ge=ge, g=g, frame_env=frame_env, heap=heap, alloc=alloc):
+                saved = (run.heap, run.alloc, run.frames[-1].env, dict(run.bound))
+                run.heap, run.alloc = dict(heap), alloc
+                run.frames[-1].env = dict(frame_env)
+                run.spec_mode += 1
+                try:
+                    if isinstance(g.iter, ast.Call) and isinstance(g.iter.func, ast.Name) and g.iter.func.id == 'anyvalue':
+                        if witness is not None and not (is_val(witness) and witness.sort() == Value):
+                            return z3.BoolVal(False)
+                        v = witness if witness is not None else z3.Const('v!m%d' % run._qcount(), Value)
+                        run._bind_target(g.target, v)
+                        rng = []
+                        qv = v
+                    else:
+                        if witness is not None and not z3.is_int(witness):
+                            return z3.BoolVal(False)
+                        it = run.make_iter(g.iter)
+                        k = witness if witness is not None else z3.Int('k!m%d' % run._qcount())
+                        rng = [k >= 0, it.has_next(run, k)]
+                        run._bind_target(g.target, it.item(run, k))
+                        qv = k
+                    conds = [run.truth(run.ev(c)) for c in g.ifs]
+                    obj = run.val(run.ev(ge.elt))
+                    body = z3.And(rng + conds + [Value.a(obj) == x])
+                    return body if witness is not None else z3.Exists([qv], body)
+                finally:
+                    run.spec_mode -= 1
+                    run.heap, run.alloc, run.frames[-1].env, run.bound = saved[0], saved[1], saved[2], saved[3]
+            pred.family = True
+            return pred
+        m = Value.a(self.val(self.ev_spec_val(e)))
+        f = lambda x, witness=None, m=m: x == m
+        f.single = m
+        f.hints = []
+        if isinstance(e, ast.Subscript) and not isinstance(e.slice, ast.Slice):
+            # the object was named as container[key]: offer key as the witness for a family entry of the caller
+            try:
+                kv = self.ev_spec_val(e.slice)
+                kv = self.val(kv)
+                f.hints.append(kv)
+                if static_tag(kv) == 'VInt' or self.tagcache.get(kv.sexpr()) == 'VInt':
+                    f.hints.append(z3.simplify(Value.i(kv)))
+                else:
+                    f.hints.append(Value.i(kv))
+            except Exception:
+                pass
+        return f
+
     def check_write(self, addr, node):
         """Frame obligation: a written object is in the modifies clause or was allocated by this call."""
         if self.spec_mode or self.entry is None:
             return
-        ok = z3.Or([addr >= self.entry.alloc] + [addr == m for m in self.mods])
+        ok = z3.Or([addr >= self.entry.alloc] + [m(addr) for m in self.mods])
         ok = z3.simplify(ok)
         if z3.is_true(ok):
             return
@@ -229,7 +292,11 @@ class CallsMixin:
 
     # ------------------------------------------------------------------ lists
     def cls_of(self, ref):
-        return z3.simplify(z3.Select(self.field('cls'), Value.a(ref)))
+        a = z3.simplify(Value.a(ref))
+        k = self.known_cls.get(a.sexpr())
+        if k is not None:
+            return z3.IntVal(k)
+        return z3.simplify(z3.Select(self.field('cls'), a))
 
     def ref_kind(self, ref, candidates):
         """Decide the container class of a reference among candidate class names (forks if undetermined)."""
@@ -251,14 +318,28 @@ class CallsMixin:
             self.assume(c == self.class_id(pick))
         return pick
 
+    # ---- list storage: a list object lives in the global list arrays, or - for a list held only by one local
+    # variable of the function under verification that is never passed on, returned or stored - in private arrays
+    # (its own memory region), so that writes to it cannot interfere with anything else and need no framing
+    def lfield(self, a, which):
+        r = self.region.get(z3.simplify(a).sexpr())
+        return ('list.%s@%s' % (which, r)) if r else 'list.' + which
+
+    def lget(self, a, which):
+        return z3.Select(self.field(self.lfield(a, which)), a)
+
+    def lset(self, a, which, v):
+        name = self.lfield(a, which)
+        self.heap[name] = z3.Store(self.field(name), a, v)
+
     def list_len(self, ref):
-        n = z3.Select(self.field('list.len'), Value.a(ref))
+        n = self.lget(Value.a(ref), 'len')
         if not z3.is_int_value(z3.simplify(n)):
             self.assume(n >= 0)     # heap typing invariant: list lengths are non-negative
         return n
 
     def list_arr(self, ref):
-        return z3.Select(self.field('list.items'), Value.a(ref))
+        return self.lget(Value.a(ref), 'items')
 
     def list_static_items(self, ref, node=None, maxlen=8):
         n = z3.simplify(self.list_len(ref))
@@ -279,20 +360,28 @@ class CallsMixin:
         a = Value.a(obj)
         if self.spec_mode:
             c = self.cls_of(obj)
+            if z3.is_int_value(c) and c.as_long() in (1, 4):
+                # specification indices are plain (non-negative) positions
+                return z3.Select(self.lget(a, 'items'), self.as_int(idx))
+            if z3.is_int_value(c) and c.as_long() == 2:
+                return z3.Select(z3.Select(self.field('dict.val'), a), idx)
             if not z3.is_int_value(c):
                 it = static_tag(idx)
                 if it == 'VStr' or it == 'VTup':
                     return z3.Select(z3.Select(self.field('dict.val'), a), idx)
                 if it == 'VInt':
                     return z3.If(c == 2, z3.Select(z3.Select(self.field('dict.val'), a), idx),
-                                 z3.Select(z3.Select(self.field('list.items'), a), Value.i(idx)))
+                                 z3.Select(self.lget(a, 'items'), Value.i(idx)))
                 return z3.If(c == 2, z3.Select(z3.Select(self.field('dict.val'), a), idx),
-                             z3.Select(z3.Select(self.field('list.items'), a), Value.i(idx)))
+                             z3.Select(self.lget(a, 'items'), Value.i(idx)))
         kind = self.ref_kind(obj, ['list', 'deque', 'dict'])
         if kind in ('list', 'deque'):
             n = self.list_len(obj)
             i = self.as_int(idx)
             i2 = self.norm_index(i, n)
+            if not self.spec_mode:
+                self.instantiate(i2)
+                self.instantiate(a)       # frame axioms of earlier calls/loops at this object's address
             if not self.spec_mode and not self.branch(z3.And(i2 >= 0, i2 < n)):
                 raise PyExc('IndexError', self.snippet(node), implicit='index')
             v = z3.simplify(z3.Select(self.list_arr(obj), z3.simplify(i2)))
@@ -326,7 +415,7 @@ class CallsMixin:
             i2 = self.norm_index(self.as_int(idx), n)
             if not self.branch(z3.And(i2 >= 0, i2 < n)):
                 raise PyExc('IndexError', self.snippet(node), implicit='index')
-            self.heap['list.items'] = z3.Store(self.field('list.items'), a, z3.Store(self.list_arr(obj), i2, v))
+            self.lset(a, 'items', z3.Store(self.list_arr(obj), i2, v))
         elif kind == 'dict':
             self.dict_set(obj, self.val(idx), v, node)
         else:
@@ -346,10 +435,12 @@ class CallsMixin:
         a = Value.a(container)
         if self.spec_mode:
             c = self.cls_of(container)
+            if z3.is_int_value(c) and c.as_long() in (2, 3):
+                return z3.Select(z3.Select(self.field('dict.has'), a), item)
             if not z3.is_int_value(c):
                 j = z3.Int('j!in%d' % self._qcount())
-                in_list = z3.Exists([j], z3.And(j >= 0, j < z3.Select(self.field('list.len'), a),
-                                                z3.Select(z3.Select(self.field('list.items'), a), j) == item))
+                in_list = z3.Exists([j], z3.And(j >= 0, j < self.lget(a, 'len'),
+                                                z3.Select(self.lget(a, 'items'), j) == item))
                 return z3.If(z3.Or(c == 2, c == 3), z3.Select(z3.Select(self.field('dict.has'), a), item), in_list)
         kind = self.ref_kind(container, ['list', 'deque', 'dict', 'set'])
         if kind in ('dict', 'set'):
@@ -365,8 +456,8 @@ class CallsMixin:
         a = Value.a(ref)
         self.check_write(a, node)
         n = self.list_len(ref)
-        self.heap['list.items'] = z3.Store(self.field('list.items'), a, z3.Store(self.list_arr(ref), n, v))
-        self.heap['list.len'] = z3.Store(self.field('list.len'), a, n + 1)
+        self.lset(a, 'items', z3.Store(self.list_arr(ref), n, v))
+        self.lset(a, 'len', n + 1)
 
     def list_slice(self, ref, lo, hi, step, node):
         n = self.list_len(ref)
@@ -410,8 +501,8 @@ class CallsMixin:
         if inplace:
             aa = Value.a(a)
             self.check_write(aa, node)
-            self.heap['list.items'] = z3.Store(self.field('list.items'), aa, new)
-            self.heap['list.len'] = z3.Store(self.field('list.len'), aa, n1 + n2)
+            self.lset(aa, 'items', new)
+            self.lset(aa, 'len', n1 + n2)
             return None
         return self.new_list_sym(z3.simplify(n1 + n2), new)
 
@@ -477,7 +568,10 @@ class CallsMixin:
             if ('attr:' + name) not in self.heap and name not in self.eng.field_types:
                 return Builtin('m.' + name, obj)
             # the name is also an attribute of library classes (e.g. Atom.index): decide by the object's class
-            if not self.spec_mode and self.ref_kind(obj, ['list', 'deque', 'dict', 'set']) is not None:
+            # (an object not KNOWN to be a container is read as an object; calling the resulting value as a method
+            # would fail loudly as out-of-subset, never silently)
+            c = self.cls_of(obj)
+            if not self.spec_mode and z3.is_int_value(c) and c.as_long() in CONTAINER_IDS:
                 return Builtin('m.' + name, obj)
         v = z3.simplify(z3.Select(self.field('attr:' + name), Value.a(obj)))
         ty = self.eng.field_types.get(name)
@@ -711,6 +805,14 @@ class CallsMixin:
         env = {k: (self.val(v) if (is_val(v) or isinstance(v, Const)) else v) for k, v in env.items()}
         caller = self.frames[-1]
         rel = c.target.split('::')[0]
+        if not self.spec_mode:
+            anns = {p[0]: p[1] for p in c.params}
+            for name, v in env.items():     # integer arguments are typical indices: instantiate quantified facts there
+                if is_val(v) and (static_tag(v) == 'VInt' or self.tagcache.get(v.sexpr()) == 'VInt'
+                                  or anns.get(name) == 'int'):
+                    iv = z3.simplify(Value.i(v))
+                    if not z3.is_int_value(iv):
+                        self.instantiate(iv)
         self.frames.append(Frame(fn, rel, env, c))
         try:
             cname = c.target.split('::')[1]
@@ -732,10 +834,25 @@ class CallsMixin:
             mods = []
             for cl in c.of('modifies'):
                 for e in cl.extra['exprs']:
-                    mods.append(Value.a(self.ev_spec_val(e)))
+                    mods.append(self.mod_pred(e))
             for m in mods:
+                # frame obligation of the caller: everything the callee may modify, the caller may modify (or is fresh)
                 self.frames.pop()
-                self.check_write(m, node)
+                if not self.spec_mode and self.entry is not None:
+                    x = z3.Int('x!fr%d' % self._qcount())
+                    ok = z3.ForAll([x], z3.Implies(z3.And(m(x), x < self.entry.alloc),
+                                                   z3.Or([mm(x) for mm in self.mods] + [z3.BoolVal(False)])))
+                    single = getattr(m, 'single', None)
+                    if single is not None:
+                        alts = [single >= self.entry.alloc] + [mm(single) for mm in self.mods]
+                        for mm in self.mods:
+                            if getattr(mm, 'family', False):
+                                for h in getattr(m, 'hints', []):
+                                    alts.append(mm(single, witness=h))
+                        ok = z3.Or(alts)
+                    ok = z3.simplify(ok) if not z3.is_quantifier(ok) else ok
+                    if not z3.is_true(ok):
+                        self.oblige(ok, 'frame', 'frame@%s' % self.snippet(node), node)
                 self.frames.append(Frame(fn, rel, env, c))
             raises = c.of('raises')
             opts = ['normal']
@@ -782,10 +899,12 @@ class CallsMixin:
             old = self.field(f)
             new = self.fresh('H_' + f, field_sort(f))
             self.heap[f] = new
-            conds = [a < pre_alloc] + [a != m for m in mods]
+            self.len_axiom(f)
+            conds = [a < pre_alloc] + [z3.Not(m(a)) for m in mods]
             body = z3.Implies(z3.And(conds), z3.Select(new, a) == z3.Select(old, a))
             self.assume(z3.ForAll([a], body, patterns=[z3.Select(new, a)]))
         self.alloc = new_alloc
+        self.instantiate_frames()
 
     def written_fields(self, stmts, rel, seen=None):
         """Heap fields that a block may write (syntactic, transitive over repository callees)."""
@@ -866,10 +985,47 @@ class CallsMixin:
         return self.fresh('obj_' + name)
 
     # ------------------------------------------------------------------ spec functions and lemmas
+    # (the class of an allocated object never changes, so `cls` is not an argument of the opaque form)
+    BASE_FIELDS = ['list.len', 'list.items', 'dict.has', 'dict.val', 'dict.n', 'glob']
+
+    def spec_fields(self, c, seen=None):
+        """Heap fields a spec function may read (syntactic, transitive): the arguments of its opaque form."""
+        cache = self.eng.__dict__.setdefault('spec_fields_cache', {})
+        if c.name in cache:
+            return cache[c.name]
+        seen = seen or set()
+        seen.add(c.name)
+        out = set()
+        for n in ast.walk(c.node):
+            if isinstance(n, ast.Attribute):
+                out.add('attr:' + n.attr)
+            elif isinstance(n, ast.Call) and isinstance(n.func, ast.Name) and n.func.id in self.eng.specs \
+                    and n.func.id not in seen:
+                out |= set(self.spec_fields(self.eng.specs[n.func.id], seen))
+        res = self.BASE_FIELDS + sorted(out - set(self.BASE_FIELDS))
+        cache[c.name] = res
+        return res
+
+    def opaque_names(self):
+        c = self.frames[0].contract if self.frames else None
+        out = set()
+        if c is not None:
+            for cl in c.of('opaque'):
+                out |= set(cl.extra['names'])
+        return out
+
     def call_spec(self, c, args, kwargs, node):
         names = [p[0] for p in c.params]
         if len(args) != len(names):
             raise OutOfSubset('spec function arity: ' + c.name)
+        if c.name in self.opaque_names():
+            # opaque form: an uninterpreted predicate of the heap fields it may read and its arguments; two
+            # occurrences over the same heap version are syntactically equal, no definition is unfolded
+            fields = self.spec_fields(c)
+            arrs = [self.field(f) for f in fields]
+            vals = [self.val(a) for a in args]
+            F = z3.Function('P_' + c.name, *([a.sort() for a in arrs] + [Value] * len(vals) + [B]))
+            return F(*(arrs + vals))
         if _is_recursive(c):
             return self.call_rec_spec(c, args, node)
         env = dict(zip(names, args))
@@ -1083,7 +1239,8 @@ class CallsMixin:
         if isinstance(v, Const):
             return z3.BoolVal(False)      # a module-level object is never freshly allocated
         v = self.val(v)
-        base = self.old.alloc if self.old is not None else self.entry.alloc
+        ref = self.old if self.old is not None else self.entry
+        base = ref.alloc if ref is not None else self.alloc
         return z3.And(Value.is_VRef(v), Value.a(v) >= base, Value.a(v) < self.alloc)
 
     def sp_allocated(self, node):
@@ -1172,9 +1329,13 @@ class CallsMixin:
         if t == 'VRef' and self.spec_mode:
             a = Value.a(x)
             c = self.cls_of(x)
+            if z3.is_int_value(c) and c.as_long() in (1, 4):
+                return VInt(self.lget(a, 'len'))
+            if z3.is_int_value(c) and c.as_long() in (2, 3):
+                return VInt(z3.Select(self.field('dict.n'), a))
             if not z3.is_int_value(c) or c.as_long() < 10:
                 return VInt(z3.If(z3.Or(c == 2, c == 3), z3.Select(self.field('dict.n'), a),
-                                  z3.Select(self.field('list.len'), a)))
+                                  self.lget(a, 'len')))
         if t == 'VStr':
             return VInt(z3.Length(Value.s(x)))
         if t == 'VTup':
@@ -1421,8 +1582,8 @@ class CallsMixin:
                                                               z3.If(i == p, v, z3.Select(arr, i - 1))),
                               patterns=[z3.Select(new, i)]))
         self.assume(z3.Select(new, p) == v)
-        self.heap['list.items'] = z3.Store(self.field('list.items'), a, new)
-        self.heap['list.len'] = z3.Store(self.field('list.len'), a, n + 1)
+        self.lset(a, 'items', new)
+        self.lset(a, 'len', n + 1)
         return VNone
 
     def bi_m_setdefault(self, b, args, kwargs, node):
@@ -1535,6 +1696,26 @@ class CallsMixin:
 
     def bi_str_islower(self, b, args, kwargs, node):
         return self._str_pred('islower', b)
+
+    def bi_str_join(self, b, args, kwargs, node):
+        sep = Value.s(b.self_val)
+        src = args[0]
+        items = self.static_items(src, node, maxlen=64) if not isinstance(src, IterVal) else \
+            (src.items if isinstance(src, StaticIter) else None)
+        if items is None:
+            raise OutOfSubset('join over symbolic sequence')
+        parts = []
+        for k, it in enumerate(items):
+            it = self.val(it)
+            t = static_tag(it) or self.tagcache.get(it.sexpr()) or self.tag(it)
+            if t != 'VStr':
+                raise PyExc('TypeError', 'join of non-str: ' + self.snippet(node), implicit='type')
+            if k:
+                parts.append(sep)
+            parts.append(Value.s(it))
+        if not parts:
+            return VStr('')
+        return VStr(z3.simplify(z3.Concat(parts) if len(parts) > 1 else parts[0]))
 
     def bi_str_startswith(self, b, args, kwargs, node):
         return VBool(z3.PrefixOf(Value.s(self.val(args[0])), Value.s(b.self_val)))
